@@ -62,6 +62,33 @@ def _merge_interps(its):
     return its[0] if len(its) == 1 else _Merged(its)
 
 
+def monotonic_queue_slip(fnode):
+    """the sliding extremum with a queue of candidates: a `while Q and Q[-1] <op> x: Q.pop()` loop keeps the candidates monotone, and the head is
+    dropped when it leaves the window.  When the head is recognised *by value* (`if ... Q[0] == <the leaving sample>: Q.popleft()`), equal
+    candidates must be kept (strict pop test): with `<=` / `>=` an older copy of the extremum is popped, and the surviving copy is then evicted
+    when the older one leaves -- the result is too small (max) / too large (min) on plateaus.  -> (lineno, text) of the slip, or None when the
+    function has no such queue or pops strictly."""
+    pops = []
+    evicts_by_value = []
+    for w in ast.walk(fnode):
+        if isinstance(w, ast.While) and isinstance(w.test, ast.BoolOp) and isinstance(w.test.op, ast.And):
+            for v in w.test.values:
+                if isinstance(v, ast.Compare) and len(v.ops) == 1 and isinstance(v.left, ast.Subscript) and isinstance(v.left.slice, ast.UnaryOp) \
+                        and ast.unparse(v.left.slice) == '-1' and any(isinstance(x, ast.Call) and isinstance(x.func, ast.Attribute) and x.func.attr == 'pop'
+                                                                      and ast.unparse(x.func.value) == ast.unparse(v.left.value) for b in w.body for x in ast.walk(b)):
+                    pops.append((ast.unparse(v.left.value), v.ops[0], v))
+        if isinstance(w, ast.If):
+            for v in ast.walk(w.test):
+                if isinstance(v, ast.Compare) and len(v.ops) == 1 and isinstance(v.ops[0], ast.Eq) and isinstance(v.left, ast.Subscript) and ast.unparse(v.left.slice) == '0' \
+                        and any(isinstance(x, ast.Call) and isinstance(x.func, ast.Attribute) and x.func.attr == 'popleft'
+                                and ast.unparse(x.func.value) == ast.unparse(v.left.value) for b in w.body for x in ast.walk(b)):
+                    evicts_by_value.append(ast.unparse(v.left.value))
+    for q, op, node in pops:
+        if q in evicts_by_value and isinstance(op, (ast.LtE, ast.GtE)):
+            return node.lineno, ast.unparse(node)
+    return None
+
+
 def check_offline(ix, rep, mon, which=('R-WINDOW', 'R-INDEX')):
     d = D.dispatch_of(ix, mon.cls)
     out = {}
@@ -76,6 +103,11 @@ def check_offline(ix, rep, mon, which=('R-WINDOW', 'R-INDEX')):
         rep.analysed(f)
         rep.unit(f.module.rel)
         slot = '%s:%s' % (mon.kind, nc.name)
+        slip = monotonic_queue_slip(f.node)
+        if slip is not None and 'R-WINDOW' in which:
+            rep.fail('R-WINDOW', f.module.rel, f.qual, slot + ':monotonic-queue', 'the queue of candidates is evicted by value (`Q[0] == <leaving sample>`) and popped with a non-strict '
+                     'test (`%s`): of two equal samples in one window the older is popped, the newer one is evicted when the older leaves, and the extremum of the rest of the window '
+                     'is lost -- `once[0:1]` on 5, 5, 1, 0 gives 1 instead of 5 at the third sample' % slip[1], slip[0])
         try:
             helpers = {fn.name: fn for fn in f.module.tree.body if isinstance(fn, ast.FunctionDef)}
             runs = W.with_splits(lambda fx: W.summarize_offline(f.node, nc.name, fx, helpers=helpers))
@@ -101,6 +133,11 @@ def check_online(ix, rep, mon, which=('R-WINDOW', 'R-INDEX')):
         rep.analysed(f)
         rep.unit(f.module.rel)
         slot = '%s:%s' % (mon.kind, name)
+        slip = monotonic_queue_slip(f.node)
+        if slip is not None and 'R-WINDOW' in which:
+            rep.fail('R-WINDOW', f.module.rel, '%s.update' % cls.name, slot + ':monotonic-queue', 'the queue of candidates is evicted by value (`Q[0] == <leaving sample>`) and popped with a '
+                     'non-strict test (`%s`): of two equal samples in one window the older is popped, the newer one is evicted when the older leaves, and the extremum of the rest of '
+                     'the window is lost (plateaus, Boolean-valued operands, +-inf)' % slip[1], slip[0])
         try:
             runs = W.with_splits(lambda fx: W.summarize_online(ix, cls, fx))
         except W.Unknown as e:
